@@ -286,3 +286,22 @@ PROPS["C10"] = dict(
     exhaustive_axes="all 1024 feature-bit subsets for the flag/availability checks; the full mask chain for every corpus case",
     assumptions=ASSUME_COMMON + ["ARM NEON / crypto-extension code, big-endian hosts, Windows and ILP32 ABIs cannot be executed on this image"],
 )
+
+PROPS["C12"] = dict(
+    name="c12", sources=["props/c12.cpp"], engine="enumerator + libFuzzer",
+    builds=[("asan", "native"), ("asan", "noasm"), ("asan", "portable")],
+    builds_thorough=[("asan", "native"), ("asan", "noasm"), ("asan", "portable"), ("asan", "noti"), ("asan", "nosimd")],
+    fuzz=dict(name="fuzz_api", sources=["fuzz/fuzz_api.cpp"], procs=8, runs_quick=25000, time_quick=45, runs_thorough=100000000, time_thorough=900, max_len=64),
+    level="exploration",
+    rule=("harness/apitable.hpp drives ~290 public functions (56 drivers; the list of covered names is in the table and the count in the evidence notes). Every input buffer is an exact-size heap block whose surroundings are "
+          "ASan-poisoned, placed at a generated misalignment 0..15; every output buffer has exactly the documented size; NULL is passed for zero-length optional pointers; decrypt/open/verify paths receive valid inputs "
+          "that are then bit-flipped half of the time, codecs and unpad receive attacker-style text, password-hash verifiers receive cost-guarded mutated strings. Enumerated: the first variable length of every driver "
+          "takes every value 0..1100 (public-key drivers every 7th, password hashing every 23rd), every third length also pins the second length; 150000 fully random cases; CPU masks rotate through the whole chain incl. "
+          "AES-NI off; builds native, noasm, portable. Size limits: 21 probes x 5 overshoots (message lengths beyond each *_MESSAGEBYTES_MAX, IETF counter overflow, hex/Base64 capacity and variant, sodium_pad overflow, "
+          "randombytes_buf_deterministic 2^38) in forked children with tiny real buffers and a misuse handler that exits 42: the request must be refused (exit 42 or error return), never processed. libFuzzer stage "
+          "(fuzz/fuzz_api.cpp, 8 processes, structured decode of bytes into driver/mask/alignment/lengths/seed, seed corpus for every driver). Oracle: no ASan report, no UBSan report except 'misaligned address' in "
+          "x86-only SIMD files and 'applying zero offset to null pointer', no signal. Non-trivial = a call with a variable length > 0; distinct = (build, driver, lengths, mask, seed)."),
+    exhaustive_axes="first variable length 0..1100 of every cheap driver",
+    assumptions=ASSUME_COMMON + ["a buffer start that is not 8-byte aligned leaves up to 7 unpoisoned bytes before it (ASan shadow granularity); over-reads/over-writes past the end are exact at every alignment",
+                                 "UBSan 'alignment' is disabled (type-punned 32-bit accesses in x86-only SIMD files); pointer-overflow reports are scanned in the log and only 'zero offset to null pointer' is ignored"],
+)
